@@ -183,7 +183,7 @@ class HGen:
             name = self.fresh()
             bases = []
             if classes and rng.random() < 0.85:
-                k = 1 if rng.random() < 0.7 or len(classes) < 2 else 2
+                k = 1 if rng.random() < 0.55 or len(classes) < 2 else 2
                 # prefer recent classes so that chains get deep
                 cands = list(classes)
                 first = cands[-1] if rng.random() < 0.6 else rng.choice(cands)
